@@ -68,7 +68,7 @@ class Ctx:
         return viols
 
     def monitors(self):
-        return MONITOR_PREFIX.get(self.prop, [self.prop + "_"])
+        return MONITOR_PREFIX.get(self.prop, [self.prop + "_"]) + EXTRA.get(self.prop, [])
 
     def add_violation(self, mon, scen, w, file=None):
         self.viols.append({"mon": mon, "scen": scen, "w": w, "file": file, "line": 0})
@@ -121,6 +121,8 @@ class Ctx:
 
 
 MONITOR_PREFIX = {}
+# monitors of other families that also decide a property in the scenarios of its own family
+EXTRA = {"C18": ["C01_ReadNext", "C14_SequenceNumber", "C02_Delivered", "C06_"]}
 CHECKS = {}
 
 
@@ -503,6 +505,16 @@ def c14(ctx):
     files = directed_traces(ctx, "reconfig", 12 if ctx.quick else 16, {"VF_FULL": "0" if ctx.quick else "1"})
     ctx.notes.append("reconfig: 1-3 streams closing at once x 0/1/3 queued messages x two close/reopen cycles x every single (quick: + sampled pairs; "
                      "thorough: all pairs) loss/duplication decision over (kind, sender, ordinal<=3) of DATA/SACK/RECONFIG")
+    ctx.validate(files)
+
+
+@check("C18", ["C18_"])
+def c18(ctx):
+    files = directed_traces(ctx, "api", 8)
+    files += directed_traces(ctx, "shutdown", 8, {"VF_FULL": "0"})
+    files += directed_traces(ctx, "reconfig", 8, {"VF_FULL": "0"})
+    files += xfer_traces(ctx, ["basic", "lossy", "il"], 64, 2000)
+    # the delivery monitors must keep holding around rejected / failed calls
     ctx.validate(files)
 
 
